@@ -26,3 +26,38 @@ Print Assumptions C08_root_best.
 Print Assumptions C08_mm_perm.
 Print Assumptions C08_run_abp_reused.
 Print Assumptions C08_run_abp_minimax.
+
+(* ---- chess instance, closed (Closed.v): for every position satisfying the executable
+   reachable-state invariant Reach.Sound, the score reported by the engine's search model is the
+   exact minimax value under the engine's leaf evaluation and the returned move attains it ---- *)
+From Coq Require Import NArith.
+From ChessV Require Import Types Board Moves MoveGen Search.
+From ChessV Require Reach Closed SearchLink.
+Open Scope N_scope.
+
+Theorem C08_closed_score_is_minimax : forall T rook_t bishop_t depth b v m b1,
+  1 <= depth -> Reach.Sound T rook_t bishop_t (N.to_nat depth) b ->
+  search T rook_t bishop_t depth b = SOk (v, m, b1) ->
+  Search.mm T rook_t bishop_t (N.to_nat depth) b (maximize (turn b)) = Ok v
+  /\ (exists b2, apply_move T m b = Ok b2 /\
+        Search.mm T rook_t bishop_t (Nat.pred (N.to_nat depth)) (toggle_turn b2)
+                  (negb (maximize (turn b))) = Ok v)
+  /\ (exists rv, Search.root_values T rook_t bishop_t (N.to_nat depth) b = Ok rv /\ In (m, v) rv /\
+        forall m' v', In (m', v') rv -> if maximize (turn b) then (v' <= v)%Z else (v <= v')%Z).
+Proof. exact Closed.C08_closed. Qed.
+
+Theorem C08_closed_ab_is_generic : forall T rook_t bishop_t d b alpha beta mx,
+  Reach.Sound T rook_t bishop_t d b ->
+  Search.ab T rook_t bishop_t d b alpha beta mx
+  = Ok (AlphaBeta.ab board (SearchLink.children T rook_t bishop_t) (SearchLink.leaf T rook_t bishop_t)
+          I16_MIN I16_MAX d mx b alpha beta, b)
+  /\ Search.mm T rook_t bishop_t d b mx
+     = Ok (AlphaBeta.mm board (SearchLink.children T rook_t bishop_t) (SearchLink.leaf T rook_t bishop_t)
+             I16_MIN I16_MAX d mx b).
+Proof. exact Closed.C08_ab_is_generic. Qed.
+
+Check @Closed.C09_cached_search_same.
+
+Print Assumptions C08_closed_score_is_minimax.
+Print Assumptions C08_closed_ab_is_generic.
+Print Assumptions Closed.C09_cached_search_same.
